@@ -1,14 +1,14 @@
 import EG.Generated.SingleKeyTable
 /-
   C17 (the tie to the code, regenerated on every run) — "arguments whose key equals a live key":
-  for every pair of the pool's argument tuples and both hash functions (242 rows), the REAL
+  for every pair of the pool's argument tuples and both hash functions (338 rows), the REAL
   metaclass returns the same object for the two constructions exactly when the model's key
   function `ssCfg.keyOf` gives the two tuples the same key.  Kernel evaluation over the table.
 -/
 namespace EG
 namespace Tab
 
-theorem C17_key_table_complete : implKey.length = 242 := by decide +kernel
+theorem C17_key_table_complete : implKey.length = 338 := by decide +kernel
 
 /-- real code = model: same instance ⇔ same key, on every row -/
 theorem C17_key_impl_eq_model : implKey.all keyRowOk = true := by decide +kernel
